@@ -296,7 +296,9 @@ def _fire_conn_fault(world, link, ft):
     elif kind == 'reset':
         if isinstance(link, net.ByteLink):
             link.reset()
+        elif ft.get('who'):
+            link.transport_error(ft['who'])
         else:
-            link.transport_error(ft.get('who', 'client'))
+            link.reset()
     elif kind == 'eof':
         link.eof_now(ft['dir'])
